@@ -632,7 +632,7 @@ class Gen:
         self.w(d)
 
     def k_verbatim(self):
-        self.w('\\begin{verbatim}')
+        self.w(self.rnd.choice(['\\begin{verbatim}'] * 4 + ['\\begin {verbatim}', '\\begin\n{verbatim}', '\\begin\n  {verbatim}']))
         self.w(self.rnd.choice(['\n', ' ', '', '  \n', '\t\n', ' \n  ', '   \n\n', '\n\n', '\n\n\n', '\n \n']))
         self.path.append('verbatim')
         self.word()
